@@ -359,6 +359,15 @@ func c14Check(r *vcore.Run) vcore.Coverage {
 		s.sub = "immutable-tags-deep"
 		return s
 	}, d1, [][]Op{seedd}, 10*time.Minute)
+	// content the image specification singles out (the "{}" blob behind the empty descriptor) is pinned by a
+	// tagged artifact like any other blob; closed universe, explored to fixpoint from the empty registry
+	uw, bw, mw := newUniverse().withWellKnown()
+	cfgWK := alphabetConfig{Repos: []string{"r"}, Blobs: []int{1, bw}, Manifests: []int{0, mw}, Tags: []string{"t"}, Deletes: true, UntaggedToo: true}
+	run("immutable-tags/well-known-content-fixpoint", func() vstate.System[Op] {
+		s := newImmutableTagsSys(r, uw, cfgWK)
+		s.sub = "immutable-tags-well-known"
+		return s
+	}, 40, nil, 10*time.Minute)
 	// closed mini universes to fixpoint
 	mini := alphabetConfig{Repos: []string{"r"}, Blobs: []int{1, 2}, Manifests: []int{0, 1, 3, 4, 8}, Tags: []string{"t"}, Deletes: true, UntaggedToo: true}
 	run("Immutable-wrapper/mini-fixpoint", func() vstate.System[Op] { return newImmutableWrapperSys(r, u, mini) }, 40, nil, 10*time.Minute)
@@ -396,6 +405,10 @@ func c14Replay(r *vcore.Run, sub string, raw json.RawMessage) {
 	case "immutable-tags-deep":
 		ud, cfgd, _ := c14Deep()
 		s = newImmutableTagsSys(r, ud, cfgd)
+		s.sub = sub
+	case "immutable-tags-well-known":
+		uw, _, _ := newUniverse().withWellKnown()
+		s = newImmutableTagsSys(r, uw, c14Config(uw, true))
 		s.sub = sub
 	case "immutable":
 		s = newImmutableWrapperSys(r, u, c14Config(u, true))
